@@ -476,6 +476,14 @@ func (g *Gen) convert(st *State, x *ssa.Convert) {
 		if sl, ok := to.Underlying().(*types.Slice); ok {
 			_ = sl
 			g.sc.emit("(assert (>= (rb (sarr %s)) %s))", n, g.frontier(st))
+			if fok && fb.Info()&types.IsString != 0 && isByteLike(sl.Elem()) {
+				g.sc.emit("(assert (= (slen %s) (strlen %s)))", n, v) // []byte(s) has len(s) bytes
+			}
+		}
+		if tok && tb.Info()&types.IsString != 0 {
+			if sl, ok := from.Underlying().(*types.Slice); ok && isByteLike(sl.Elem()) {
+				g.sc.emit("(assert (= (strlen %s) (slen %s)))", n, v) // string(b) has len(b) bytes
+			}
 		}
 	}
 }
